@@ -14,7 +14,7 @@ RULE = ('programs x sequences of K<=2 (thorough: sampled K=3,4) requests from {p
 RULE += ('; also: outline workchains (pauses issued by steps and listeners), listeners that play and pause again within one notification')
 ASSUMPTIONS = ['programs depend only on their arguments (deterministic)', 'expected trace comes from an independent interpreter of the program text, '
                'cross-checked against the uninterrupted run of the real code']
-REQUIRED = ['calls_on_terminated', 'step_entries', 'pause_live', 'play_while_paused', 'pause_phase/running-step', 'pause_phase/waiting-step', 'pause_phase/between-steps-or-unstarted',
+REQUIRED = ['requests_under_foreign_loop', 'calls_on_terminated', 'step_entries', 'pause_live', 'play_while_paused', 'pause_phase/running-step', 'pause_phase/waiting-step', 'pause_phase/between-steps-or-unstarted',
             'trace_compared', 'outline_runs', 'outline_pause_live', 'outline_play_while_paused', 'outline_pause_mid_run']
 ALPHABET = [['pause', 'p'], ['pause', None], ['play'], ['resume', ['v']], ['resume', None]]
 BOUNDS = {'quick': 'basic program family, K<=2 exhaustive, K=3 exhaustive over {pause,play}', 'thorough': 'K=3 exhaustive on 4 key programs, + 40 random programs, K=3/4 sampled, listener-issued pause/play'}
@@ -198,7 +198,8 @@ def run_case(case):
         return run_outline_case(case)
     rec = lifecycle.run_case(case)
     viol = judges.judge_c05(rec, check_trace=not case.get('no_trace'))
-    obs = {'step_entries': 0, 'pause_live': 0, 'play_while_paused': 0, 'pause_phase': {}, 'trace_compared': 0, 'pause_returns': {}}
+    obs = {'step_entries': 0, 'pause_live': 0, 'play_while_paused': 0, 'pause_phase': {}, 'trace_compared': 0, 'pause_returns': {},
+           'requests_under_foreign_loop': sum(1 for a in rec['acts'] if a.get('foreign_loop_current'))}
     obs['step_entries'] = sum(1 for e in rec['events'] if e[0] == 'trace' and e[1] == 'enter')
     for a in rec['acts']:
         if a['kind'] == 'pause' and a['live_before']:
